@@ -89,9 +89,6 @@ EXPORT int sscanf_s(const char *restrict buffer, const char *restrict fmt,
                     ...) {
     va_list ap;
     int ret;
-#if defined(HAVE_STRSTR)
-    char *p;
-#endif
 
     if (unlikely(buffer == NULL)) {
         invoke_safe_str_constraint_handler("sscanf_s: buffer is null", NULL,
@@ -107,27 +104,12 @@ EXPORT int sscanf_s(const char *restrict buffer, const char *restrict fmt,
         return EOF;
     }
 
-#if defined(HAVE_STRSTR)
-    if (unlikely((p = strstr((char *)fmt, "%n")))) {
-        if ((p - fmt == 0) || *(p - 1) != '%') {
-            invoke_safe_str_constraint_handler("sscanf_s: illegal %n", NULL,
-                                               EINVAL);
-            errno = EINVAL;
-            return EOF;
-        }
+    if (unlikely(safec_fmt_has_n(fmt))) {
+        invoke_safe_str_constraint_handler("sscanf_s: illegal %n", NULL,
+                                           EINVAL);
+        errno = EINVAL;
+        return EOF;
     }
-#elif defined(HAVE_STRCHR)
-    if (unlikely((p = strchr(fmt, flen, 'n')))) {
-        /* at the beginning or if inside, not %%n */
-        if (((p - fmt >= 1) && *(p - 1) == '%') &&
-            ((p - fmt == 1) || *(p - 2) != '%')) {
-            invoke_safe_str_constraint_handler("sscanf_s: illegal %n", NULL,
-                                               EINVAL);
-            errno = EINVAL;
-            return EOF;
-        }
-    }
-#endif
 
     errno = 0;
     va_start(ap, fmt);
